@@ -1,0 +1,148 @@
+//go:build verif
+
+/*
+ Licensed to the Apache Software Foundation (ASF) under one
+ or more contributor license agreements.  See the NOTICE file
+ distributed with this work for additional information
+ regarding copyright ownership.  The ASF licenses this file
+ to you under the Apache License, Version 2.0 (the
+ "License"); you may not use this file except in compliance
+ with the License.  You may obtain a copy of the License at
+
+     http://www.apache.org/licenses/LICENSE-2.0
+
+ Unless required by applicable law or agreed to in writing, software
+ distributed under the License is distributed on an "AS IS" BASIS,
+ WITHOUT WARRANTIES OR CONDITIONS OF ANY KIND, either express or implied.
+ See the License for the specific language governing permissions and
+ limitations under the License.
+*/
+
+package scheduler
+
+import (
+	"github.com/apache/yunikorn-core/pkg/handler"
+	"github.com/apache/yunikorn-core/pkg/metrics"
+	"github.com/apache/yunikorn-core/pkg/rmproxy/rmevent"
+	"github.com/apache/yunikorn-core/pkg/scheduler/objects"
+)
+
+// Verification hooks (build tag verif): thin exported wrappers around the existing unexported entry points
+// that the event handling goroutines and the scheduling loop call. No behaviour of their own.
+
+func (cc *ClusterContext) VerifSetEventHandler(h handler.EventHandler) {
+	cc.setEventHandler(h)
+}
+
+func (cc *ClusterContext) VerifHandleNodeEvent(ev *rmevent.RMUpdateNodeEvent) {
+	cc.handleRMUpdateNodeEvent(ev)
+}
+
+func (cc *ClusterContext) VerifHandleAppEvent(ev *rmevent.RMUpdateApplicationEvent) {
+	cc.handleRMUpdateApplicationEvent(ev)
+}
+
+func (cc *ClusterContext) VerifHandleAllocEvent(ev *rmevent.RMUpdateAllocationEvent) {
+	cc.handleRMUpdateAllocationEvent(ev)
+}
+
+func (cc *ClusterContext) VerifSchedule() bool {
+	return cc.schedule()
+}
+
+func (cc *ClusterContext) VerifConfigUpdate(ev *rmevent.RMConfigUpdateEvent) {
+	cc.processRMConfigUpdateEvent(ev)
+}
+
+func (cc *ClusterContext) VerifRegister(ev *rmevent.RMRegistrationEvent) {
+	cc.processRMRegistrationEvent(ev)
+}
+
+func (cc *ClusterContext) VerifRemovePartitions(ev *rmevent.RMPartitionsRemoveEvent) {
+	cc.removePartitionsByRMID(ev)
+}
+
+// VerifQuotaPreemption runs one iteration of the body of Scheduler.internalQuotaPreemption.
+func (cc *ClusterContext) VerifQuotaPreemption() {
+	s := &Scheduler{clusterContext: cc}
+	s.triggerQuotaPreemption()
+}
+
+// VerifInspectOutstanding runs one iteration of the body of Scheduler.internalInspectOutstandingRequests.
+func (cc *ClusterContext) VerifInspectOutstanding() int {
+	s := &Scheduler{clusterContext: cc}
+	n, _ := s.inspectOutstandingRequests()
+	return n
+}
+
+// VerifHealthCheck runs the health check body.
+func (cc *ClusterContext) VerifHealthCheck() bool {
+	return GetSchedulerHealthStatus(metrics.GetSchedulerMetrics(), cc).Healthy
+}
+
+// VerifStopManagers stops the partition manager goroutines without running partitionManager.remove().
+func (cc *ClusterContext) VerifStopManagers() {
+	for _, pc := range cc.GetPartitionMapClone() {
+		pc.VerifStopManager()
+	}
+}
+
+func (pc *PartitionContext) VerifStopManager() {
+	m := pc.partitionManager
+	defer func() { _ = recover() }()
+	close(m.stopCleanExpiredApps)
+	close(m.stopCleanRoot)
+}
+
+// VerifCleanQueues runs one iteration of the queue cleaner of the partition manager.
+func (pc *PartitionContext) VerifCleanQueues() {
+	pc.partitionManager.cleanQueues(pc.root)
+}
+
+// VerifCleanExpired runs one iteration of the expired application cleaner of the partition manager.
+func (pc *PartitionContext) VerifCleanExpired() {
+	pc.cleanupExpiredApps()
+}
+
+// VerifCounters returns the partition counters: allocations, placeholder allocations, reservations.
+func (pc *PartitionContext) VerifCounters() (int, int, int) {
+	pc.RLock()
+	defer pc.RUnlock()
+	return pc.allocations, pc.placeholderAllocations, pc.reservations
+}
+
+func (pc *PartitionContext) VerifRoot() *objects.Queue {
+	return pc.root
+}
+
+func (pc *PartitionContext) VerifOutstanding() []*objects.Allocation {
+	return pc.calculateOutstandingRequests()
+}
+
+func (pc *PartitionContext) VerifForeignAllocs() map[string]string {
+	pc.RLock()
+	defer pc.RUnlock()
+	res := make(map[string]string)
+	for k, v := range pc.foreignAllocs {
+		res[k] = v.GetNodeID()
+	}
+	return res
+}
+
+func (pc *PartitionContext) VerifAllApplications() (active, completed, rejected map[string]*objects.Application) {
+	pc.RLock()
+	defer pc.RUnlock()
+	active = make(map[string]*objects.Application)
+	completed = make(map[string]*objects.Application)
+	rejected = make(map[string]*objects.Application)
+	for k, v := range pc.applications {
+		active[k] = v
+	}
+	for k, v := range pc.completedApplications {
+		completed[k] = v
+	}
+	for k, v := range pc.rejectedApplications {
+		rejected[k] = v
+	}
+	return active, completed, rejected
+}
